@@ -172,6 +172,129 @@ def expect_query(sc, q):
     return {"kind": "ok", "payload": body, "t": ta, "sends": nsent, "tcp": 0, "echo": what == "Jquery", "what": what}
 
 
+# ---------------------------------------------------------------- code-blind datagram filter (RFC 1035 4.1.1/4.1.2/4.1.4)
+def _label_ok(l):
+    return 1 <= len(l) <= 63 and all((48 <= c <= 57) or (65 <= c <= 90) or (97 <= c <= 122) or c in (45, 95) for c in l) and l[0] != 45 and l[-1] != 45
+
+
+def expand_name(msg, p):
+    """labels and resume offset of the name at p, or None if it has no legal expansion"""
+    labels, q0, hops, resume = [], None, 0, None
+    while True:
+        if p >= len(msg):
+            return None
+        v = msg[p]
+        if v == 0:
+            break
+        if v < 64:
+            if p + 1 + v > len(msg):
+                return None
+            labels.append(msg[p + 1:p + 1 + v])
+            p += 1 + v
+        elif v >= 192:
+            if p + 1 >= len(msg):
+                return None
+            tgt = (v - 192) * 256 + msg[p + 1]
+            q = p if q0 is None else q0
+            if tgt >= q or hops >= 32:
+                return None
+            if q0 is None:
+                q0, resume = p, p + 2
+            hops += 1
+            p = tgt
+        else:
+            return None
+    if resume is None:
+        resume = p + 1
+    if not all(_label_ok(l) for l in labels) or sum(len(l) + 1 for l in labels) + 1 > 255:
+        return None
+    return labels, resume
+
+
+def spec_accept(d, qid, name, qtype, qclass):
+    """does datagram d answer the query (qid, name, qtype, qclass)?  -> flags word or None"""
+    if len(d) < 12 or d[:2] != qid or d[4:6] != b"\x00\x01":
+        return None
+    e = expand_name(d, 12)
+    if e is None:
+        return None
+    labels, r = e
+    if r + 4 > len(d) or d[r:r + 2] != qtype.to_bytes(2, "big") or d[r + 2:r + 4] != qclass.to_bytes(2, "big"):
+        return None
+    asked = [] if name == b"." else name.rstrip(b".").split(b".")
+    if [l.lower() for l in labels] != [l.lower() for l in asked]:
+        return None
+    return int.from_bytes(d[2:4], "big")
+
+
+def gen_xdatagram(rng, name, qtype, qclass, buf):
+    """a datagram near the genuine response, id field = XOR delta to the query id (0000 = same id)"""
+    d = bytearray(response_bytes(name, qtype, qclass, tc=rng.random() < 0.3, case=rng.random() < 0.3))
+    qn = len(qname_wire(name))
+    for _ in range(rng.choice([0, 0, 1, 1, 2, 3])):
+        m = rng.randrange(14)
+        if m == 0:
+            d[rng.randrange(2)] ^= 1 << rng.randrange(8)                 # id
+        elif m == 1:
+            d[4:6] = rng.choice([b"\x00\x00", b"\x00\x02", b"\x01\x00", b"\x01\x01", b"\xff\xff"])
+        elif m == 2 and qn > 2:
+            i = 12 + rng.randrange(qn - 1)                                # a name octet (length or letter)
+            d[i] ^= rng.choice([0x20, 0x01, 0x40, 0x80])
+        elif m == 3:
+            i = 12 + qn + rng.randrange(4)                                # type / class
+            d[i] ^= 1 << rng.randrange(8)
+        elif m == 4:
+            del d[rng.choice([0, 1, 5, 11, 12, 12 + qn - 1, 12 + qn, 12 + qn + 1, 12 + qn + 3, 12 + qn + 4, rng.randrange(len(d) + 1)]):]
+        elif m == 5:
+            d[2] ^= rng.choice([0x80, 0x02, 0x78, 0x04])                  # QR / TC / opcode / AA
+            d[3] ^= rng.choice([0, 0x0f, 0x80])
+        elif m == 6:
+            d[6:12] = bytes(rng.randrange(256) for _ in range(6))        # other counts
+        elif m == 7:
+            d += bytes(rng.randrange(256) for _ in range(rng.choice([1, 30, buf - len(d) if buf > len(d) else 1, buf, 2000])))
+        elif m == 8 and len(d) >= 12 + qn:
+            # the question name written as first label + pointer into the header (offset 4..11)
+            tgt = rng.choice([4, 5, 6, 10, 11, 12, 13, 0])
+            first = bytes(d[12:13 + d[12]]) if d[12] < 64 else b""
+            d[12:12 + qn] = first + bytes([0xc0, tgt])
+        elif m == 9 and len(d) >= 12 + qn:
+            # make ANCOUNT.. octets spell the tail of the name is not possible; use root via pointer to a zero octet
+            d[12:12 + qn] = bytes([0xc0, rng.choice([6, 8, 10])])
+        elif m == 10 and len(d) >= 12 + qn + 4:
+            d[12 + qn:12 + qn] = d[12:12 + qn + 4]                        # the question twice
+            if rng.random() < 0.5:
+                d[4:6] = b"\x00\x02"
+        elif m == 11:
+            d = bytearray(bytes(rng.randrange(256) for _ in range(rng.choice([0, 1, 12, 17, 40]))))
+        elif m == 12 and len(d) >= 12 + qn:
+            d[12 + qn - 1:12 + qn] = b"\x01x\x00"                          # one more label
+        elif m == 13 and len(d) >= 12 + qn and qn > 3:
+            d[12:12 + qn] = d[12 + 1 + d[12]:12 + qn]                       # first label dropped
+    return bytes(d)
+
+
+def gen_tcp_raw(rng, buf):
+    """segments of a TCP answer stream: prefix + body (+ trailing), with lying prefixes and early ends"""
+    n = rng.choice([0, 1, 2, 12, 40, 300, buf - 1, buf, buf, rng.randrange(0, 700)])
+    body = bytes(rng.randrange(256) for _ in range(n))
+    announce = n
+    r = rng.random()
+    if r < 0.2:
+        announce = rng.choice([n + 1, n + 2, buf + 1, buf + 2, 65535, max(0, n - 1), max(0, n - 5)])
+    stream = announce.to_bytes(2, "big") + body
+    if rng.random() < 0.25:
+        stream += bytes(rng.randrange(256) for _ in range(rng.choice([1, 2, 9, 100])))
+    if rng.random() < 0.2:
+        stream = stream[:rng.choice([0, 1, 2, 3, len(stream) // 2, max(0, len(stream) - 1)])]
+    cuts = sorted(set(rng.randrange(1, len(stream)) for _ in range(rng.choice([0, 0, 1, 2, 3, 5])))) if len(stream) > 1 else []
+    segs, a = [], 0
+    for c in cuts + [len(stream)]:
+        if c > a:
+            segs.append(stream[a:c])
+            a = c
+    return segs
+
+
 def rand_name(rng):
     return b".".join(small_label(rng) for _ in range(rng.choice([1, 2, 3])))
 
@@ -243,6 +366,20 @@ def gen_scenario(rng, focus, client=None, variant=0):
         else:
             mode = "full"
         qs = [mk(tcp=(rng.choice([0, 0, 40]), mode))]
+    elif focus == "xmodel":
+        strategy = rng.choice(["udp", "udp", "notcp", "tcp"])
+        qt, life = None, 600
+        buf = rng.choice([512, 600, 1232])
+        edns = None
+        qclass = rng.choice([1, 1, 3])
+        items = []
+        k = rng.choice([0, 1, 2, 3, 4])
+        for j in range(k):
+            items.append((40 * j, "X" + hx(gen_xdatagram(rng, name, qtype, qclass, buf))))
+        if rng.random() < 0.7:
+            items.append((40 * k, "X" + hx(response_bytes(name, qtype, qclass, tc=rng.random() < 0.4))))
+        segs = gen_tcp_raw(rng, buf)
+        qs = [mk(qclass=qclass, udp=[items], tcp=(0, "raw:4:" + (".".join(hx(x) for x in segs) if segs else "-")))]
     elif focus == "timing":
         # a fixed catalogue of timing patterns, each exercised by every client (index = variant)
         qt = 300
